@@ -66,7 +66,7 @@ var properties = map[string]propSpec{
 	},
 	"C02": {
 		Bounds: [2]map[string]any{
-			{"rows": "0..2 (0..1 nested)", "operands": "any non-NaN float64; for DIV % & | ^ << >> ~ |operand| < 2^62, divisor/modulus non-zero, any non-negative shift count", "expressions": "+ - * / on columns and constants, nesting depth 2, 4 precedence/associativity forms, unary - ~ !, CASE with 1-2 WHEN and optional ELSE, 6 key-set forms"},
+			{"rows": "0..2 (0..1 nested)", "operands": "any non-NaN float64; for DIV % & | ^ << >> ~ |operand| < 2^62, divisor/modulus non-zero, any non-negative shift count", "expressions": "+ - * / on columns and constants, nesting depth 2, 4 precedence/associativity forms, unary - ~ !, CASE with 1-2 WHEN and optional ELSE, 6 key-set forms; 18 literal spellings (leading zeros, exponents, bare fractions, beyond int64) × sign"},
 			{"rows": "0..3", "operands": "same", "expressions": "same"},
 		},
 		Outside: []string{"operands outside ±2^62 for the integer operators", "division by zero", "expression depth > 2", "math.Mod is an uninterpreted function on symbolic operands (except x mod 1, encoded exactly)"},
@@ -80,7 +80,7 @@ var properties = map[string]propSpec{
 	},
 	"C04": {
 		Bounds: [2]map[string]any{
-			{"sides": "|l| 0..2, |r| 0..2 (two-column conditions: ≤3 rows in total); PARALLEL: ≤3 rows in total", "keys": "any non-NaN float64 except -0 (opaque key text), or strings ≤1 byte over {a,b} for the single-column conditions", "joins": "JOIN/LEFT/RIGHT × plain/HASH_JOIN/STRAIGHT_JOIN(inner) × 9 ON conditions (=, flipped, two-column in both orders, <, !=, OR, mixed, >=); two-column joins on the integer keys {1,2,3,12,23} whose texts can be confused; mixed-kind keys (1, '1', 2, '2', '1.0', true, 'true') on 2×2 rows under = and <", "schedules": "PARALLEL variants: every schedule with ≤1 preemption at synchronisation granularity, race monitor on", "map iteration": "every order at the join loops"},
+			{"sides": "|l| 0..2, |r| 0..2 (two-column conditions: ≤3 rows in total); PARALLEL: ≤3 rows in total", "keys": "any non-NaN float64 except -0 (opaque key text), or strings ≤1 byte over {a,b} for the single-column conditions", "joins": "JOIN/LEFT/RIGHT × plain/HASH_JOIN/STRAIGHT_JOIN(inner) × 9 ON conditions (=, flipped, two-column in both orders, <, !=, OR, mixed, >=); two-column joins on the integer keys {1,2,3,12,23} whose texts can be confused; mixed-kind keys (1, '1', 2, '2', '1.0', true, 'true') on 2×2 rows under = and <; 5 alias pairs (prefixes of one another, multi-letter) × 3 ON orientations on 0..2 × 0..2 rows", "schedules": "PARALLEL variants: every schedule with ≤1 preemption at synchronisation granularity, race monitor on", "map iteration": "every order at the join loops"},
 			{"sides": "|l| 0..3, |r| 0..2; PARALLEL ≤4 rows in total", "keys": "same", "joins": "same", "schedules": "≤2 preemptions", "map iteration": "same"},
 		},
 		Outside: []string{"INTO grouping joins", "more than two tables", "NaN keys", "SHA-256 collision freedom and injectivity of base64 are assumed for the hash keys"},
@@ -108,14 +108,14 @@ var properties = map[string]propSpec{
 	},
 	"C08": {
 		Bounds: [2]map[string]any{
-			{"shapes": "5 ragged array-of-array shapes (inner lengths 0..2) and one depth-3 document", "queries": "filter, computed projection, mix=> flattening; nested evaluation against per-inner-array evaluation under WithVars (GETVAR, SETVAR), WithConstants and the Postgres dialect option"},
-			{"shapes": "same", "queries": "same"},
+			{"shapes": "5 ragged array-of-array shapes (inner lengths 0..2); 4 depth-3 / mixed-depth documents (empty array first, flat array first) nested and through mix=>", "queries": "filter, computed projection, mix=> flattening; nested evaluation against per-inner-array evaluation under WithVars (GETVAR, SETVAR), WithConstants and the Postgres dialect option"},
+			{"shapes": "same", "queries": "same"}, // (no deeper bound: the shapes are fixed)
 		},
 		Outside: []string{"depth > 3", "GROUP BY / ORDER BY over nested sources"},
 	},
 	"C09": {
 		Bounds: [2]map[string]any{
-			{"indexes": "any int in [0,2^31) (as ReadIndex yields), range bounds any int in [-1,2^31)", "arrays": "length 0..3, ragged arrays of arrays (outer 0..2 × inner 0..2)", "selectors": "27 selector texts covering every documented form on a document with symbolic leaves and a symbolic-length array; 9 selector texts evaluated twice on independent documents and over ragged arrays (selector cache reuse)", "pipes": "{k|number} over every string ≤3 bytes of {0 1 8 9 . x -} against a decimal-syntax reference, {k|string} over the halves -3..4.5"},
+			{"indexes": "any int in [0,2^31) (as ReadIndex yields), range bounds any int in [-1,2^31)", "arrays": "length 0..3, ragged arrays of arrays (outer 0..2 × inner 0..2)", "selectors": "27 selector texts covering every documented form on a document with symbolic leaves and a symbolic-length array; 9 selector texts evaluated twice on independent documents and over ragged arrays (selector cache reuse)", "sequences": "every ordered pair of the 45 selector texts on one document (selector cache history)", "pipes": "{k|number} over every string ≤3 bytes of {0 1 8 9 . x -} against a decimal-syntax reference, {k|string} over the halves -3..4.5"},
 			{"indexes": "same", "arrays": "same", "selectors": "same", "pipes": "strings ≤4 bytes"},
 		},
 		Outside: []string{"arbitrary byte strings as selectors: tokenisation is three Go regexps, executed natively on concrete text only"},
@@ -149,7 +149,7 @@ var properties = map[string]propSpec{
 	},
 	"C14": {
 		Bounds: [2]map[string]any{
-			{"rows": "0..2", "calls": "ASYNC, AWAIT(ASYNC), SPINASYNC+SPIN, ONCE, ASYNC inside a derived table and a subquery, SPINASYNC inside a subquery / derived table / EXISTS / CTE; immediate functions × 3 qualifiers", "schedules": "≤1 preemption"},
+			{"rows": "0..2", "calls": "ASYNC, AWAIT(ASYNC), SPINASYNC+SPIN, ONCE, ASYNC inside a derived table and a subquery, SPINASYNC inside a subquery / derived table / EXISTS / CTE; built-in and user-registered (any letter case) immediate functions × 6 qualifier spellings", "schedules": "≤1 preemption"},
 			{"rows": "0..3 (nested forms 0..2)", "calls": "same", "schedules": "≤2 preemptions for 0..2 rows (nested forms: 0..1), ≤1 preemption otherwise"},
 		},
 		Outside: []string{"completion of SPIN calls (not promised)"},
@@ -177,10 +177,10 @@ var properties = map[string]propSpec{
 	},
 	"C18": {
 		Bounds: [2]map[string]any{
-			{"arrays": "length 0..3 with optional NULLs", "index": "any float64 in (-2^31, 2^31), fractional and negative included", "functions": "CHANGETYPE of every text ≤3 bytes over {0 1 8 9 x - _ . +} and of halves -2.5..3 to integer/double/string/array (any case) and unknown targets; FIRST LAST ELEMENTAT UNWIND ARRAY IF (NULL branches included) CONCAT CHANGETYPE DATERANGE CONSTANT DEFAULTKEY FUSE TO_LOWER TO_UPPER (ASCII, ≤2 bytes) and 9 wrong-arity calls"},
+			{"arrays": "length 0..3 with optional NULLs", "index": "any float64 in (-2^31, 2^31), fractional and negative included", "case maps": "TO_UPPER/TO_LOWER on one- and two-rune strings over 23 runes (Latin digraphs, Georgian, Greek sigma, dotted/dotless i, sharp s, ligatures, Deseret, invalid UTF-8)", "arity": "21 fixed-arity functions × every other argument count up to arity+2", "functions": "CHANGETYPE of every text ≤3 bytes over {0 1 8 9 x - _ . +} and of halves -2.5..3 to integer/double/string/array (any case) and unknown targets; FIRST LAST ELEMENTAT UNWIND ARRAY IF (NULL branches included) CONCAT CHANGETYPE DATERANGE CONSTANT DEFAULTKEY FUSE TO_LOWER TO_UPPER (ASCII, ≤2 bytes) and 9 wrong-arity calls"},
 			{"arrays": "same", "index": "same", "functions": "same"},
 		},
-		Outside: []string{"ENCODE/DECODE (gob reflection) and HASH (md5/sha1/sha512 compression functions) have no model: not applicable to this technique", "TO_LOWER/TO_UPPER beyond ASCII", "CHANGETYPE string↔double round trip is the NumText axiom itself"},
+		Outside: []string{"ENCODE/DECODE (gob reflection) and HASH (md5/sha1/sha512 compression functions) have no model: not applicable to this technique", "CHANGETYPE string↔double round trip is the NumText axiom itself"},
 	},
 	"C19": {
 		Bounds: [2]map[string]any{
@@ -190,7 +190,7 @@ var properties = map[string]propSpec{
 	},
 	"C20": {
 		Bounds: [2]map[string]any{
-			{"histories": "every select list of 4 SETVAR/GETVAR operations over 2 keys (256 sequences) × 0..2 rows, followed by a second query sharing the map; every sequence of 3 stores of values of different kinds that print alike (1/'1', true/'true', NULL/'<nil>', symbolic number and string); every sequence of 3 stores and a read over the 7 key expressions 1, 1.5, '1', 2.5, 1000000, 'k', 0.25 with the final contents of the caller's map"},
+			{"histories": "every select list of 4 SETVAR/GETVAR operations over 2 keys (256 sequences) × 0..2 rows, followed by a second query sharing the map; every sequence of 3 stores of values of different kinds that print alike (1/'1', true/'true', NULL/'<nil>', symbolic number and string); queries prepared up front and executed later / re-executed / with caller updates in between; every sequence of 3 stores and a read over the 7 key expressions 1, 1.5, '1', 2.5, 1000000, 'k', 0.25 with the final contents of the caller's map"},
 			{"histories": "same"},
 		},
 	},
